@@ -6,6 +6,7 @@ import sx
 
 PID = "C12"
 RUNNER = "impl_m1.py"
+VM_CROSSCHECK = True
 N = {"quick": 1800, "thorough": 60000}
 LEVEL_RULE = ("content cases: sequence + sequence (or simultaneity as right operand), and concatenation of two simultaneities of "
               "sequences by index / by tag (0-3 voices each, tags unique / repeated / missing, nested simultaneities as voices, "
